@@ -99,6 +99,9 @@ type shape struct {
 	dataErrLast       bool // ... the script ends with the first Read of that end's direction after the fault was set up
 	paceClose         bool // an end closes / fails while a chunk read from the other end is being paced out
 	routeFail         bool // the routing store fails deletes
+	statCase          bool // the statistics backend stalls, and the end that then closes has sent before
+	hold              bool // the tunnel outlives the heartbeat timeout
+	tFault            bool // a fault on the target's connection that only a fake connection can play
 	stallCase         bool // an end stops draining, the other end has sent and then closes / fails
 	plain             bool // nothing but sends, attach, one fault step, gates and one plain close / error
 }
@@ -106,11 +109,17 @@ type shape struct {
 func shapeOf(g *genLine) shape {
 	var s shape
 	faultDir, readsAfter, sent, pacing := "", 0, map[string]bool{}, false
-	stalledEnd := ""
+	stalledEnd, statStalled := "", false
 	s.plain = true
 	for i, st := range g.Steps {
 		s.lastGate = false
 		switch st.A {
+		case "statstall":
+			statStalled = true
+		case "statresume":
+			statStalled, s.plain = false, false
+		case "hold":
+			s.hold = true
 		case "routefail":
 			s.routeFail = true
 		case "stall":
@@ -121,11 +130,16 @@ func shapeOf(g *genLine) shape {
 			if stalledEnd != "" && st.E == other(stalledEnd) && sent[outOf(st.E)] {
 				s.stallCase = true
 			}
+			if statStalled && sent[outOf(st.E)] {
+				s.statCase = true
+			}
 			if st.W == "data" {
 				s.plain = false
+				s.tFault = s.tFault || st.E == "T"
 			}
 		case "arm", "glitch", "replace", "closeold", "extclose", "timeout":
 			s.plain = false
+			s.tFault = s.tFault || ((st.A == "arm" || st.A == "glitch") && st.E == "T")
 		}
 		if st.K == "tn" || st.W == "data" {
 			s.dataErr, faultDir = true, outOf(st.E)
@@ -165,8 +179,9 @@ func shapeOf(g *genLine) shape {
 			if !s.attach && st.A != "extclose" {
 				s.endBeforeAttach = true
 			}
-		case "arm", "glitch", "stall", "unstall", "routefail":
+		case "arm", "glitch", "stall", "unstall", "routefail", "statstall", "statresume":
 			s.fault = true
+			s.tFault = s.tFault || ((st.A == "stall" || st.A == "unstall") && st.E == "T")
 		case "replace", "closeold":
 			s.replace = true
 		case "timeout":
@@ -250,8 +265,38 @@ func expand(env *fw.Env, src string, raw json.RawMessage) []json.RawMessage {
 		b := beh{Lim: g.Lim, Steps: env, Mode: "free", Via: []string{"conn", "stream"}[(h>>8)%2],
 			FinE: []string{"S", "T"}[(h>>9)%2], FinK: "close", Big: 2 * copyBuf}
 		return []json.RawMessage{fw.MustJSON(b)}
+	} else if src == "gen:xnode" {
+		// the target on another node: free running only (its end is a TCP connection), one script per
+		// order of the environment steps, nothing a real socket cannot be told to do
+		if s.tFault || s.replace || s.timeout || !s.attach {
+			return nil
+		}
+		var steps []step
+		for _, st := range g.Steps {
+			if st.A != "R" && st.A != "W" {
+				steps = append(steps, st)
+			}
+		}
+		key := "xnode-env:" + string(fw.MustJSON(steps))
+		seenMu.Lock()
+		dup := seen[key]
+		seen[key] = true
+		seenMu.Unlock()
+		if dup || (env.Tier != "thorough" && len(steps) > 4) {
+			return nil
+		}
+		b := beh{Lim: g.Lim, Steps: steps, Mode: "free", Via: []string{"conn", "stream"}[(h>>8)%2], AttachK: "xnode",
+			FinE: []string{"S", "T"}[(h>>9)%2], FinK: []string{"close", "error"}[(h>>10)%2], Drain: (h>>11)%2 == 0, Big: 2 * copyBuf}
+		return []json.RawMessage{fw.MustJSON(b)}
+	} else if src == "gen:pkt" {
+		// the target through the packet path; the scripts that outlive the heartbeat timeout always
+		// (they cost a second each), a share of the others
+		if s.timeout || (!s.hold && h%1000 >= 150) || (s.hold && env.Tier != "thorough" && (len(g.Steps) > 5 || s.ending)) {
+			return nil
+		}
 	} else if src == "gen:S1" && s.plain && endsWithEnding(&g) && (g.Lim == "none" || env.Tier == "thorough") &&
 		((s.routeFail && s.want == 0 && !s.hasGate) ||
+			(s.statCase && len(g.Steps) <= 6 && (env.Tier == "thorough" || onlyClasses(&g, "one", "Bp1"))) ||
 			(s.stallCase && len(g.Steps) <= 5 && (env.Tier == "thorough" || onlyClasses(&g, "one", "Bp1")))) {
 		// the minimal scripts of two environment faults, always: the routing store refuses deletes when
 		// the tunnel is torn down; an end that does not drain while the other end sends and goes away
@@ -267,11 +312,12 @@ func expand(env *fw.Env, src string, raw json.RawMessage) []json.RawMessage {
 	paced := g.Lim == "tiny" || g.Lim == "edge" || g.Lim == "slow"
 	mk := func(mode string, salt uint64) json.RawMessage {
 		b := beh{Lim: g.Lim, Steps: g.Steps, Mode: mode, Route: s.routeFail || (h>>13)%4 == 0,
-			Via:   []string{"conn", "stream"}[(h>>8+salt)%2],
-			FinE:  []string{"S", "T"}[(h>>9+salt)%2],
-			FinK:  []string{"close", "error"}[(h>>10)%2],
-			Drain: (h>>11)%2 == 0,
-			Big:   2 * copyBuf}
+			AttachK: map[string]string{"gen:pkt": "pkt"}[src],
+			Via:     []string{"conn", "stream"}[(h>>8+salt)%2],
+			FinE:    []string{"S", "T"}[(h>>9+salt)%2],
+			FinK:    []string{"close", "error"}[(h>>10)%2],
+			Drain:   (h>>11)%2 == 0,
+			Big:     2 * copyBuf}
 		if mode == "free" && !paced {
 			b.Big = 1 << 20
 		}
@@ -284,7 +330,7 @@ func expand(env *fw.Env, src string, raw json.RawMessage) []json.RawMessage {
 		// Scripts in which an end is already closed / failed when the target attaches make one copier
 		// finish (and Bridge.Close run) while the other goroutine is still starting: a scheduling race
 		// no gate can pin down. They are executed raceLoops times (cheap: unpaced, ~1 ms each).
-		if s.endBeforeAttach && !paced {
+		if s.endBeforeAttach && !paced && src != "gen:pkt" {
 			var b beh
 			json.Unmarshal(out[len(out)-1], &b)
 			b.Loops = raceLoops
@@ -419,7 +465,11 @@ func main() {
 		ModelJobs: func(env *fw.Env) []fw.TLCJob {
 			mc := func(name, cfg, maxs, repl, faults, c string) fw.TLCJob {
 				return fw.TLCJob{Name: name, Module: "Bridge", Cfg: cfg, Timeout: 14 * time.Minute,
-					Consts: map[string]string{"MAXS": maxs, "REPL": repl, "FAULTS": faults, "CLS": c}}
+					Consts: map[string]string{"MAXS": maxs, "REPL": repl, "FAULTS": faults, "CLS": c, "AK": `{"local"}`, "HOLD": "FALSE"}}
+			}
+			kinds := func(j fw.TLCJob) fw.TLCJob { // every way of attaching the target, tunnels that outlive the heartbeat timeout
+				j.Consts["AK"], j.Consts["HOLD"] = `{"local", "pkt", "xnode"}`, "TRUE"
+				return j
 			}
 			cov := func(j fw.TLCJob) fw.TLCJob { j.Coverage = true; return j } // action coverage (vacuity guard) in the evidence
 			small := `{"one", "Bp1"}`
@@ -435,12 +485,16 @@ func main() {
 					mc("live:as-found(S=2)", "Bridge_live.cfg", "2", "FALSE", "TRUE", cls),
 					mc("live:as-needed(S=1,replace)", "Bridge_live_fixed.cfg", "1", "TRUE", "TRUE", cls),
 					mc("live:as-needed(S=2,{1,32K+1})", "Bridge_live_fixed.cfg", "2", "FALSE", "TRUE", small),
+					kinds(mc("mc:as-found(S=1,attach kinds)", "Bridge_mc.cfg", "1", "FALSE", "TRUE", cls)),
+					kinds(mc("mc:as-needed(S=1,attach kinds)", "Bridge_fixed.cfg", "1", "TRUE", "TRUE", cls)),
+					kinds(mc("live:as-needed(S=1,attach kinds,{1,32K+1})", "Bridge_live_fixed.cfg", "1", "FALSE", "TRUE", small)),
 				}
 			}
 			return []fw.TLCJob{
 				mc("mc:as-found(S=2,replace,{1,32K+1},no faults)", "Bridge_mc.cfg", "2", "TRUE", "FALSE", small),
 				mc("mc:as-found(S=1)", "Bridge_mc.cfg", "1", "FALSE", "TRUE", cls),
-				mc("mc:as-needed(S=1,replace)", "Bridge_fixed.cfg", "1", "TRUE", "TRUE", cls),
+				mc("mc:as-needed(S=1,replace)", "Bridge_fixed.cfg", "1", "TRUE", "TRUE", small),
+				kinds(mc("mc:as-needed(S=1,attach kinds,{1,32K+1})", "Bridge_fixed.cfg", "1", "FALSE", "TRUE", small)),
 				mc("live:as-found(S=1,replace,{1,32K+1},no faults)", "Bridge_live.cfg", "1", "TRUE", "FALSE", small),
 			}
 		},
@@ -455,7 +509,7 @@ func main() {
 			}
 			gen := func(name, maxs, lims, c, faults, repl, ext string) fw.TLCJob {
 				return fw.TLCJob{Name: name, Module: "Bridge", Cfg: "Bridge_gen.cfg", Workers: 1, // one worker: breadth-first order (and so the script chosen per state) is reproducible
-					Consts: map[string]string{"MAXS": maxs, "LIMS": lims, "CLS": c, "FAULTS": faults, "REPL": repl, "EXT": ext, "DEVLIM": devlim, "MAXSLOW": "5"}}
+					Consts: map[string]string{"MAXS": maxs, "LIMS": lims, "CLS": c, "FAULTS": faults, "REPL": repl, "EXT": ext, "DEVLIM": devlim, "MAXSLOW": "5", "AK": `{"local"}`, "HOLD": "FALSE"}}
 			}
 			sim := func(n int) fw.TLCJob {
 				j := gen("sim:S3", "3", all, cls, "TRUE", "FALSE", "TRUE")
@@ -468,6 +522,11 @@ func main() {
 				gen("gen:repl", "1", `{"none", "tiny"}`, `{"one", "Bp1"}`, "FALSE", "TRUE", "FALSE"),
 				gen("gen:slow", "1", `{"slow"}`, `{"B"}`, "FALSE", "FALSE", "FALSE"),
 			}
+			pkt := gen("gen:pkt", "1", `{"none"}`, `{"one", "Bp1"}`, "FALSE", "FALSE", "FALSE")
+			pkt.Consts["AK"], pkt.Consts["HOLD"] = `{"pkt"}`, "TRUE"
+			xn := gen("gen:xnode", "2", `{"none"}`, `{"one", "Bp1"}`, "FALSE", "FALSE", "FALSE")
+			xn.Consts["AK"] = `{"xnode"}`
+			jobs = append(jobs, pkt, xn)
 			bidi := gen("gen:bidi", "2", `{"tiny"}`, `{"B", "big"}`, "FALSE", "FALSE", "FALSE")
 			bidi.Consts["MAXSLOW"] = "9" // S: 64 KiB and T: 32 KiB (or the reverse) at 16383 B/s: ~4 s of pacing
 			jobs = append(jobs, bidi)
